@@ -421,6 +421,27 @@ impl World for RWorld {
                 }
             }
             "note" if t.len() == 2 => "ok".into(),
+            "enc" => match parse_term(&t[1..]) {
+                None => BAD.into(),
+                Some(p) => {
+                    let mut buffer = [0u8; 1400];
+                    let mut oct = octets::OctetsMut::with_slice(&mut buffer);
+                    match p.to_bytes(&mut oct) {
+                        Ok(len) => hex(&buffer[..len]),
+                        Err(e) => format!("err:{:?}", e),
+                    }
+                }
+            },
+            "dec" if t.len() == 2 => match unhex(t[1]) {
+                None => BAD.into(),
+                Some(b) => {
+                    let mut oct = octets::Octets::with_slice(&b);
+                    match WPacket::from_bytes(&mut oct) {
+                        Ok(p) => show_term(&p),
+                        Err(e) => format!("err:{:?}", e),
+                    }
+                }
+            },
             "setc" | "setg" | "disc" | "disct" if t.len() == 2 => {
                 let h = num!(t[1], u64);
                 match self.clients.get_mut(&h) {
@@ -438,6 +459,113 @@ impl World for RWorld {
             }
             _ => BAD.into(),
         }
+    }
+}
+
+use renet::verif::{Packet as WPacket, Slice as WSlice};
+
+pub fn show_term(p: &WPacket) -> String {
+    match p {
+        WPacket::SmallReliable { sequence, channel_id, messages } => {
+            let mut s = format!("SR {} {} {}", sequence, channel_id, messages.len());
+            for (id, m) in messages {
+                s.push_str(&format!(" {} {}", id, hex(m)));
+            }
+            s
+        }
+        WPacket::SmallUnreliable { sequence, channel_id, messages } => {
+            let mut s = format!("SU {} {} {}", sequence, channel_id, messages.len());
+            for m in messages {
+                s.push_str(&format!(" {}", hex(m)));
+            }
+            s
+        }
+        WPacket::ReliableSlice { sequence, channel_id, slice } => format!(
+            "RS {} {} {} {} {} {}",
+            sequence,
+            channel_id,
+            slice.message_id,
+            slice.slice_index,
+            slice.num_slices,
+            hex(&slice.payload)
+        ),
+        WPacket::UnreliableSlice { sequence, channel_id, slice } => format!(
+            "US {} {} {} {} {} {}",
+            sequence,
+            channel_id,
+            slice.message_id,
+            slice.slice_index,
+            slice.num_slices,
+            hex(&slice.payload)
+        ),
+        WPacket::Ack { sequence, ack_ranges } => {
+            let mut s = format!("AK {} {}", sequence, ack_ranges.len());
+            for r in ack_ranges {
+                s.push_str(&format!(" {} {}", r.start, r.end));
+            }
+            s
+        }
+    }
+}
+
+pub fn parse_term(t: &[&str]) -> Option<WPacket> {
+    if t.len() < 3 {
+        return None;
+    }
+    let seq: u64 = t[1].parse().ok()?;
+    match t[0] {
+        "SR" => {
+            let ch: u8 = t[2].parse().ok()?;
+            let n: usize = t.get(3)?.parse().ok()?;
+            if t.len() != 4 + 2 * n {
+                return None;
+            }
+            let mut messages = vec![];
+            for i in 0..n {
+                messages.push((t[4 + 2 * i].parse().ok()?, unhex(t[5 + 2 * i])?.into()));
+            }
+            Some(WPacket::SmallReliable { sequence: seq, channel_id: ch, messages })
+        }
+        "SU" => {
+            let ch: u8 = t[2].parse().ok()?;
+            let n: usize = t.get(3)?.parse().ok()?;
+            if t.len() != 4 + n {
+                return None;
+            }
+            let mut messages = vec![];
+            for i in 0..n {
+                messages.push(unhex(t[4 + i])?.into());
+            }
+            Some(WPacket::SmallUnreliable { sequence: seq, channel_id: ch, messages })
+        }
+        "RS" | "US" if t.len() == 7 => {
+            let ch: u8 = t[2].parse().ok()?;
+            let slice = WSlice {
+                message_id: t[3].parse().ok()?,
+                slice_index: t[4].parse().ok()?,
+                num_slices: t[5].parse().ok()?,
+                payload: unhex(t[6])?.into(),
+            };
+            if t[0] == "RS" {
+                Some(WPacket::ReliableSlice { sequence: seq, channel_id: ch, slice })
+            } else {
+                Some(WPacket::UnreliableSlice { sequence: seq, channel_id: ch, slice })
+            }
+        }
+        "AK" => {
+            let n: usize = t[2].parse().ok()?;
+            if t.len() != 3 + 2 * n {
+                return None;
+            }
+            let mut ack_ranges = vec![];
+            for i in 0..n {
+                let s: u64 = t[3 + 2 * i].parse().ok()?;
+                let e: u64 = t[4 + 2 * i].parse().ok()?;
+                ack_ranges.push(s..e);
+            }
+            Some(WPacket::Ack { sequence: seq, ack_ranges })
+        }
+        _ => None,
     }
 }
 
